@@ -298,7 +298,7 @@ def write_evidence(ctx, level, checker_cmd, n_viol):
     (d / f"{ctx.pid}.json").write_text(json.dumps(ev, indent=1, default=str) + "\n")
 
 
-def finish(ctx, level="proof", checker_cmd=""):
+def finish(ctx, level="proof", checker_cmd="", write=True):
     known = load_known(ctx.pid)
     printed_known = set()
     real = []
@@ -333,7 +333,8 @@ def finish(ctx, level="proof", checker_cmd=""):
         path = rdir / f"{ctx.tier}-seed{ctx.seed}-obligations.json"
         path.write_text(json.dumps({"property": ctx.pid, "failed_obligations": [{"name": n, "note": note} for n, _, note in failed]}, indent=1) + "\n")
         lines.append(f"VIOLATION property={ctx.pid} replay={path} no-failing-input-found")
-    write_evidence(ctx, level, checker_cmd, len(real) + (1 if failed and not real else 0))
+    if write:      # a --replay run covers one case only: it must not replace the evidence of a full run
+        write_evidence(ctx, level, checker_cmd, len(real) + (1 if failed and not real else 0))
     for l in lines:
         print(l)
     n = len(ctx.obligations)
@@ -365,7 +366,7 @@ def main(argv=None):
             mod.replay(ctx, case)
         else:
             mod.run(ctx)
-        rc = finish(ctx, getattr(mod, "LEVEL", "proof"), f"./check {pid} --tier {a.tier}")
+        rc = finish(ctx, getattr(mod, "LEVEL", "proof"), f"./check {pid} --tier {a.tier}", write=not a.replay)
     except Infra as e:
         print(f"infrastructure failure: {e}", file=sys.stderr)
         rc = 2
